@@ -112,6 +112,9 @@ where
             {
                 let mut pdata = scu.send_pdata(pc_selected.id);
                 pdata.write_all(&object_data).context(WriteIOSnafu)?;
+                // send the last fragment now, so that a failure is reported
+                // (dropping the writer would ignore it)
+                pdata.finish().context(WriteIOSnafu)?;
             }
         }
 
